@@ -123,8 +123,15 @@ if live_finding("F06a"):
         R.contracts[key].requires.append("length(item['p']) == 0  # EXCLUDED REGION F06a: matrix style with explode=false omits the `name=` prefix for non-empty arrays/objects")
 
 # ------------------------------------------------------------------------------------------------- serialize_case
-R.contract("schemathesis.transport.prepare:prepare_headers", args={"case": Opq("Any"), "headers": Opq("Any")}, returns=KeyedDict(Str, Str, sizes=(0, 1)), trusted=True,
-           effects={"final_headers": "result"}, note="C14 contract (explicit headers win, only standard headers added)")
+def _prepared_headers(it, env):
+    if getattr(it.top_contract, "variant", None) == "with-body":
+        # (the real object is a CaseInsensitiveDict; here: either an explicit content-type header in the spelling the code looks up, or none in any spelling)
+        return DictOf(optional={"content-type": Str, "X-Other": Str}).make(it, it.path.fresh("ret:prepare_headers"))
+    return KeyedDict(Str, Str, sizes=(0, 1)).make(it, it.path.fresh("ret:prepare_headers"))
+
+
+R.contract("schemathesis.transport.prepare:prepare_headers", args={"case": Opq("Any"), "headers": Opq("Any")}, returns=_prepared_headers, trusted=True,
+           effects={"final_headers": "result", "final_headers0": "dict(result)"}, note="C14 contract (explicit headers win, only standard headers added)")
 R.contract("schemathesis.transport.prepare:prepare_url", args={"case": Opq("Any"), "base_url": Opq("Any")}, returns=Str, pure=True, trusted=True, note="base URL joined with the formatted path (E5 axioms, native audit)")
 R.alias("url_of", "schemathesis.transport.prepare:prepare_url")
 QueryVal = OneOf(Int, Str, Const({}), Bool, NoneT)
@@ -158,6 +165,43 @@ def _same(it, a, b):
 
 
 R.spec_funcs["same"] = _same
+
+# ------------------------------------------------------------------------------------------------- serialize_case with a body: Content-Type is the case's media type, the serializer is that media type's
+R.contract("schemathesis.transport.prepare:prepare_body", args={"case": Opq("Any")}, returns=Opq("PreparedBody"), trusted=True, effects={"body_of": "case"}, note="C20 contract: the body (wrapped for GraphQL)")
+R.contract("schemathesis.transport:SerializationContext", abstract_only=True, args={}, returns=Opq("SerializationContext"), note="dataclass constructor")
+
+
+def _get_serializer(it, obj, a, k):
+    from pyvc.interp import BuiltinFn
+
+    mt = a[0]
+    it.ghost["serializer_for"] = mt
+
+    def serializer(it2, args, kw):
+        it2.ghost["serialized"] = args[1]
+        return {"data": ("serialized", mt, args[1])}
+
+    return BuiltinFn("serializer", serializer)
+
+
+R.nominal_methods["spec:ReqTransport"] = {"_get_serializer": _get_serializer}
+BodyCase = Obj("schemathesis.generation.case:Case", media_type=Choice("application/json", "multipart/form-data", "text/plain"), body=Opq("Body"), _auth=NoneT, method=Str,
+               query=NoneT, cookies=NoneT)
+R.contract(
+    TR + "RequestsTransport.serialize_case",
+    variant="with-body",
+    prop="C06",
+    setup=None,
+    args={"self": Obj("spec:ReqTransport"), "case": BodyCase, "kwargs": Const({"base_url": "http://127.0.0.1"})},
+    ghost={"final_headers": None, "final_headers0": None, "serializer_for": None, "serialized": None, "body_of": None},
+    ensures={
+        # the Content-Type equals the case's media type (multipart boundaries are the library's; an explicit header wins)
+        "content_type_is_the_cases_media_type": "implies(case.media_type != 'multipart/form-data' and 'content-type' not in ghost('final_headers0'), result['headers']['Content-Type'] == case.media_type)",
+        "an_explicit_content_type_wins": "implies('content-type' in ghost('final_headers0'), result['headers']['content-type'] == ghost('final_headers0')['content-type'] and 'Content-Type' not in result['headers'])",
+        "body_serialized_by_the_serializer_of_its_media_type": "ghost('serializer_for') == case.media_type and ghost('body_of') is case and result['data'][1] == case.media_type",
+    },
+    bounded_note="prepared headers: an explicit content-type and / or one other header",
+)
 
 # ------------------------------------------------------------------------------------------------- WSGI transport: the same case, as Werkzeug keyword arguments
 WS = "schemathesis.transport.wsgi:"
